@@ -1256,7 +1256,7 @@ fn apply<S: AdjSut>(sut: &mut S, cx: &mut Ctx, op: &Op, kind: &'static str) -> R
                 cx.acc.fault("index_limit_in_extend");
                 cx.faults += 1;
                 let ws: Vec<(usize, usize, u32)> = edges.iter().map(|&(a, b)| (a, b, cx.fresh())).collect();
-                let r = catch(|| if from_scratch { sut.from_edges_replace(&ws) } else { sut.extend_with_edges(&ws) });
+                let r = catch(|| if from_scratch { sut.from_edges_replace(&ws, 0) } else { sut.extend_with_edges(&ws, 0) });
                 match r {
                     Ok(()) => fail!("limit-ignored", "{} with a list that needs more than {} nodes/edges returned normally", kind, mx),
                     Err(_) => {
@@ -1274,9 +1274,26 @@ fn apply<S: AdjSut>(sut: &mut S, cx: &mut Ctx, op: &Op, kind: &'static str) -> R
                 }
             } else {
                 let ws: Vec<(usize, usize, u32)> = edges.iter().map(|&(a, b)| (a, b, cx.fresh())).collect();
-                let r = catch(|| if from_scratch { sut.from_edges_replace(&ws) } else { sut.extend_with_edges(&ws) });
+                // which IntoWeightedEdge implementation delivers the list (a function of the
+                // list, so a replay takes the same one); the weightless forms need the new
+                // edges' indices to be predictable, i.e. a compact graph
+                let form = (crate::core::mix(edges.len() as u64, edges.first().map_or(7, |e| (e.0 * 31 + e.1) as u64)) % if target.compact { 5 } else { 3 }) as u8;
+                let weightless = form >= 3;
+                cx.acc.probe_if(weightless, "edge_list_without_weights");
+                let r = catch(|| if from_scratch { sut.from_edges_replace(&ws, form) } else { sut.extend_with_edges(&ws, form) });
                 if let Err(p) = r {
                     fail!("panic", "{} panicked: {}", kind, p);
+                }
+                if weightless {
+                    // the edges were created with Default weights at the next free indices
+                    let base = target.edges.len();
+                    for (k, &(_, _, w)) in ws.iter().enumerate() {
+                        match catch(|| sut.set_edge_w(base + k, w, WHow::WeightMut)) {
+                            Ok(true) => {}
+                            Ok(false) => fail!("edge-missing", "{}: edge number {} of the list is not at index {} afterwards", kind, k, base + k),
+                            Err(p) => fail!("panic", "edge_weight_mut({}) panicked after {}: {}", base + k, kind, p),
+                        }
+                    }
                 }
                 // model: sequential semantics
                 let mut new_nodes: Vec<usize> = Vec::new();
